@@ -1,6 +1,7 @@
 // C33 oracle driver: node c33_driver.js <batch.json> <out.json>
 //
-// batch = { run:   [ {id, variants: {name: source, ...}} ],     // every variant is parsed and executed
+// batch = { timeoutMs: per-script watchdog (default 5000; its firing is reported as thrown: 'TIMEOUT'),
+//           run:   [ {id, variants: {name: source, ...}} ],     // every variant is parsed and executed
 //           parse: [ {id, variants: {name: source, ...}} ] }    // every variant is only parsed
 //
 // Each executed variant runs in a FRESH vm context with a recording console and a few inert
@@ -32,7 +33,7 @@ function sandbox(log) {
   return sb;
 }
 
-function runOne(source) {
+function runOne(source, timeoutMs) {
   const res = { parseError: null, log: [], thrown: null, globals: [] };
   let script;
   try {
@@ -45,7 +46,7 @@ function runOne(source) {
   const before = new Set(Object.getOwnPropertyNames(sb));
   const ctx = vm.createContext(sb);
   try {
-    script.runInContext(ctx, { timeout: 2000 });
+    script.runInContext(ctx, { timeout: timeoutMs });
   } catch (e) {
     res.thrown = (e && e.name) ? String(e.name) : 'non-error:' + String(e);
     if (e && e.code === 'ERR_SCRIPT_EXECUTION_TIMEOUT') res.thrown = 'TIMEOUT';
@@ -64,10 +65,11 @@ function parseOnly(source) {
 }
 
 const batch = JSON.parse(fs.readFileSync(process.argv[2], 'utf8'));
+const timeoutMs = batch.timeoutMs || 5000;
 const out = { node: process.version, run: [], parse: [] };
 for (const c of batch.run || []) {
   const r = { id: c.id, variants: {} };
-  for (const name of Object.keys(c.variants)) r.variants[name] = runOne(c.variants[name]);
+  for (const name of Object.keys(c.variants)) r.variants[name] = runOne(c.variants[name], timeoutMs);
   out.run.push(r);
 }
 for (const c of batch.parse || []) {
